@@ -343,3 +343,7 @@ Proof.
   replace (crashed true (written f (pb_of ls w1'))) with (synced f (pb_of ls w1')) in Rs by reflexivity.
   exact Rs.
 Qed.
+
+Lemma torn_over_zeros_iff new T :
+  (forall n, torn_over (zeros n) new T -> torn new T) /\ (torn new T -> torn_over (zeros (length new)) new T).
+Proof. split; [intros n; apply torn_over_zeros|apply torn_torn_over]. Qed.
